@@ -19,7 +19,7 @@ RULE = (
     "Hypothesis lists of journal operations (create_or_load over a CompID pool with mirror "
     "pairs / equal ids / quoting characters, persist_msg with sparse, descending, repeated and "
     "huge numbers and arbitrary payload bytes, set_seq_num, close + reopen (such histories run on a file), recover_messages with empty / "
-    "inverted / single / open-ended ranges, recover_msg, get_all_msgs under every filter, "
+    "inverted / single / open-ended ranges with bounds as int, decimal str or mixed (the documented int | str), recover_msg, get_all_msgs under every filter, "
     "sessions()) run on an in-memory Journaler and a dict model, full comparison after every "
     "operation. Non-trivial = history using >=2 sessions, both directions and a set_seq_num "
     "after a store; distinct by the operation list."
@@ -56,6 +56,8 @@ op = st.one_of(
     st.tuples(st.just("persist"), sess, dirn, num, payload),
     st.tuples(st.just("set"), sess, st.one_of(st.none(), small_num), st.one_of(st.none(), small_num)),
     st.tuples(st.just("range"), sess, dirn, bound, bound),
+    st.tuples(st.just("range"), sess, dirn, st.one_of(st.integers(0, 12), st.sampled_from([2, 9, 99])), st.one_of(st.integers(8, 14), st.sampled_from([10, 100, 101, 2**31])),
+              st.sampled_from(["ss", "ss", "is", "si"])),
     st.tuples(st.just("range"), sess, dirn, st.integers(0, 4), st.sampled_from([8, 14, 100, 2**31, sys.maxsize])),
     st.tuples(st.just("set"), sess, st.one_of(st.none(), st.integers(1, 8)), st.one_of(st.none(), st.integers(1, 8))),
     st.tuples(st.just("one"), sess, dirn, num),
@@ -231,11 +233,14 @@ def _run_history(ops, record, j, m, path):
                 if stores:
                     classes.add("set-after-store")
             elif kind == "range":
-                _, si, dn, lo, hi = o
+                _, si, dn, lo, hi = o[:5]
+                spell = o[5] if len(o) > 5 else "ii"  # bounds are documented as int | str (decimal strings, as read from a ResendRequest)
                 t, s = table[si % len(table)]
                 ms = m.sessions[(t, s)]
                 d = DIRS[dn]
-                got = j.recover_messages(_S(ms["key"]), d, lo, hi)
+                got = j.recover_messages(_S(ms["key"]), d, str(lo) if spell[0] == "s" else lo, str(hi) if spell[1] == "s" else hi)
+                if spell != "ii":
+                    classes.add("range-str-bounds")
                 exp = [b for n, b in m.rows_of(ms["key"], d) if lo <= n <= hi]
                 if got != exp:
                     fail("range/result", f"recover_messages({lo},{hi}) session={ms['key']} {dn}: got {got!r} expected {exp!r}")
